@@ -275,7 +275,10 @@ theorem ignored_means_no_handler (f : Flags) (t : Nat) (c : Option Nat)
   rcases h with h | h <;> rw [h] at h' <;> cases h'
 
 /-- **A client acts on USERAUTH_SUCCESS only while an authentication object of its own exists** (and never
-    before the first key exchange completed). -/
+    before the first key exchange completed).  This is what the code guarantees (`self.is_client() and self._auth`)
+    and it is WEAKER than the property's last sentence, "only while a request of its own is outstanding": the
+    client's auth object exists from `try_next_auth` on, before its first request is written (see `connGuard` and
+    `success_accepted_before_request_is_written`; audit C06 #2, demonstrated on the real client, harmless). -/
 theorem success_needs_outstanding_request (f : Flags) (c : Option Nat) (tgt : Target)
     (h : effect f MSG_USERAUTH_SUCCESS c = .handled tgt) :
     tgt = .conn ∧ f.server = false ∧ f.authActive = true ∧ f.recvEnc = true := by
@@ -292,6 +295,17 @@ theorem success_needs_outstanding_request (f : Flags) (c : Option Nat) (tgt : Ta
       MSG_USERAUTH_REQUEST, MSG_USERAUTH_FAILURE, MSG_USERAUTH_SUCCESS] at hguard
     simp at hguard
     exact ⟨rfl, hguard.1, hguard.2, henc⟩
+
+/-- the gap between the theorem above and the property's wording, made explicit: nothing in the gate
+    distinguishes a client whose auth object has written its request from one whose auth object is still asking
+    the application what to send — in both states a USERAUTH_SUCCESS is handled -/
+theorem success_accepted_before_request_is_written (f : Flags) (c : Option Nat)
+    (hcl : f.server = false) (hauth : f.authActive = true) (henc : f.recvEnc = true) :
+    effect f MSG_USERAUTH_SUCCESS c = .handled .conn := by
+  simp [effect, route, connGuard, connHandlers, roleOk, MSG_KEX_FIRST, MSG_KEX_LAST, MSG_USERAUTH_SUCCESS,
+    MSG_USERAUTH_FIRST, MSG_USERAUTH_LAST, MSG_IGNORE, MSG_DEBUG, MSG_CHANNEL_FIRST, MSG_CHANNEL_LAST,
+    MSG_SERVICE_REQUEST, MSG_SERVICE_ACCEPT, MSG_EXT_INFO, MSG_KEXINIT, MSG_NEWKEYS, MSG_USERAUTH_REQUEST,
+    MSG_USERAUTH_FAILURE, hcl, hauth, henc]
 
 /-! ### non-vacuity -/
 
